@@ -1,5 +1,9 @@
 """Lattice graph cases for the Assembly model (C03 C04 C06 C07 C08): generation, real-object construction, exact solve."""
+import copy
 import math
+import os
+import pickle
+import tempfile
 import random
 import warnings
 from fractions import Fraction
@@ -230,7 +234,56 @@ def build_graph(case, idmap=None, shift=None, negq=(), info_scale=1.0, split=Non
         # values); the new Graph must evaluate them on ITS vertices.
         decoy = [Vertex(v.id, type(v.pose).identity(), fixed=not v.fixed) for v in vs]
         Graph(es, decoy).calc_chi2()
-    return Graph(es, vs)
+    g = Graph(es, vs)
+    # Provenance dimension: the same graph as a deep copy, after a pickle round trip, or written to a .g2o file and loaded again (where the
+    # format can express it; the flags, which the format does not carry, are set again) -- it must behave like the directly built one.
+    mode = _bg[0] % 7
+    if mode == 1:
+        g = copy.deepcopy(g)
+    elif mode == 4:
+        g = pickle.loads(pickle.dumps(g))
+    elif mode in (2, 5) and _file_expressible(es):
+        g = _through_file(g)
+    PROVENANCE[0] = {1: 'deepcopy', 4: 'pickle'}.get(mode, 'file' if mode in (2, 5) and _file_expressible(es) else 'direct')
+    PROV_COUNTS[PROVENANCE[0]] = PROV_COUNTS.get(PROVENANCE[0], 0) + 1
+    return g
+
+
+PROVENANCE = ['direct']
+PROV_COUNTS = {}
+
+
+def _file_expressible(es):
+    for e in es:
+        if type(e) is EdgeOdometry and isinstance(e.estimate, (B.CLS_OF['SE2'], B.CLS_OF['SE3'])):
+            continue
+        if type(e) is EdgeLandmark and isinstance(e.offset, B.CLS_OF['SE3']):
+            continue
+        if type(e) is EdgeLandmark and isinstance(e.offset, B.CLS_OF['SE2']) and not np.any(np.asarray(e.offset)):
+            continue
+        return False
+    return True
+
+
+def _through_file(g):
+    from graphslam.g2o_parameters import G2OParameterSE3Offset
+    reg = {}
+    for n, e in enumerate(g._edges):
+        if type(e) is EdgeLandmark and isinstance(e.offset, B.CLS_OF['SE3']):
+            e.offset_id = n + 1
+            reg[('PARAMS_SE3OFFSET', n + 1)] = G2OParameterSE3Offset(('PARAMS_SE3OFFSET', n + 1), e.offset)
+    g._g2o_params = reg
+    fd, path = tempfile.mkstemp(suffix='.g2o')
+    os.close(fd)
+    try:
+        g.to_g2o(path)
+        g2 = Graph.from_g2o(path)
+    finally:
+        os.unlink(path)
+    flags = {v.id: v.fixed for v in g._vertices}
+    for v in g2._vertices:
+        v.fixed = flags[v.id]
+    return g2
 
 
 # ---------- exact linear algebra (Fractions) ----------
